@@ -557,4 +557,57 @@ theorem evalOK_all (cfg : Cfg) : ∀ f, EvalOK cfg f := by
         rw [hnma, hnt]
         cases f <;> simpa [Fn.name, callEval] using hco
 
+/-! ### The levelled relation implies the plain one -/
+
+theorem foldRL_to_foldR {RL R : Tree → NExpr → Prop} {p : Nat} {acc e : NExpr} {ts : List Tree}
+    (h : FoldRL RL p acc ts e) (hR : ∀ x ∈ ts, ∀ b, RL x b → R x b) : FoldR R acc ts e := by
+  induction h with
+  | nil p acc => exact .nil _
+  | cons ho _ hx _ ih =>
+    exact .cons ho (hR _ (by simp) _ hx) (ih fun x hx b hb => hR x (by simp [hx]) b hb)
+
+theorem argsR_map {RL R : Tree → NExpr → Prop} {ts : List Tree} {es : List NExpr}
+    (h : ArgsR RL ts es) (hR : ∀ x ∈ ts, ∀ b, RL x b → R x b) : ArgsR R ts es := by
+  induction h with
+  | nil => exact .nil
+  | cons hx _ ih =>
+    exact .cons (hR _ (by simp) _ hx) (ih fun x hx b hb => hR x (by simp [hx]) b hb)
+
+theorem opKids_mem_size {ks : List Tree} {x : Tree} (h : x ∈ opKids ks) : size x ≤ sizeList ks :=
+  mem_sizeList (List.mem_of_mem_filter h)
+
+theorem repL_to_rep_aux : ∀ (n : Nat) (t : Tree) (e : NExpr), size t ≤ n → RepresentsL t e →
+    Represents t e := by
+  intro n
+  induction n with
+  | zero => intro t e h; have := size_pos t; omega
+  | succ n ih =>
+    intro t e hsz h
+    cases h with
+    | num h1 h2 h3 h4 => exact .num h1 h2 h3 h4
+    | pct h1 h2 h3 => exact .pct h1 h2 h3
+    | @paren id ks x e' hk hx =>
+      simp only [size_node] at hsz
+      have := opKids_mem_size (ks := ks) (x := x) (by rw [hk]; simp)
+      exact .paren hk (ih x e' (by omega) hx)
+    | @chain id ks x₀ rest e₀ _ p hk hne hx hf =>
+      simp only [size_node] at hsz
+      have h0 := opKids_mem_size (ks := ks) (x := x₀) (by rw [hk]; simp)
+      refine .chain hk hne (ih x₀ e₀ (by omega) hx) (foldRL_to_foldR hf ?_)
+      intro x hx b hb
+      have := opKids_mem_size (ks := ks) (x := x) (by rw [hk]; simp [hx])
+      exact ih x b (by omega) hb
+    | call0 hk => exact .call0 hk
+    | @call id aid ks aks nm f x xs args more hk h1 h2 hak hargs =>
+      simp only [size_node] at hsz
+      have ha := opKids_mem_size (ks := ks) (x := .node aid .FN_ARGUMENTS aks) (by rw [hk]; simp)
+      simp only [size_node] at ha
+      refine .call hk h1 h2 hak (argsR_map hargs ?_)
+      intro y hy b hb
+      have := opKids_mem_size (ks := aks) (x := y) (by rw [hak]; exact hy)
+      exact ih y b (by omega) hb
+
+theorem repL_to_rep {t : Tree} {e : NExpr} (h : RepresentsL t e) : Represents t e :=
+  repL_to_rep_aux (size t) t e (Nat.le_refl _) h
+
 end Anything.C06
